@@ -19,3 +19,4 @@ def run(prog, rep):
     from ..rules import r_key as _rkx
     _rkx.run_handles_only(prog, rep)
     r_valid.run_loop_fresh(prog, rep)
+    _ru3.run_tables(prog, rep)
